@@ -670,7 +670,8 @@ pub async fn exec_c15_mode(script: Value, bookkeeping: bool) -> ExecResult {
                         continue;
                     }
                     let (s, a) = (*svc % 3, *ip % 5);
-                    if grpc_alive.contains_key(&(s, a)) {
+                    // (an address that an open gRPC connection holds or still claims is left to the gRPC clients)
+                    if grpc_alive.contains_key(&(s, a)) || claims.get(&(s, a)).map(|c| !c.is_empty()).unwrap_or(false) {
                         continue;
                     }
                     let w = (*weight % 3) + 1;
@@ -698,7 +699,8 @@ pub async fn exec_c15_mode(script: Value, bookkeeping: bool) -> ExecResult {
                         continue;
                     }
                     let (s, a) = (*svc % 3, *ip % 5);
-                    if grpc_alive.contains_key(&(s, a)) {
+                    // (an address that an open gRPC connection holds or still claims is left to the gRPC clients)
+                    if grpc_alive.contains_key(&(s, a)) || claims.get(&(s, a)).map(|c| !c.is_empty()).unwrap_or(false) {
                         continue;
                     }
                     http_touched.insert((s, a));
@@ -904,8 +906,13 @@ pub async fn exec_c15_mode(script: Value, bookkeeping: bool) -> ExecResult {
             let distro = naming_distro_msg_times();
             let now_us = sim::now_us();
             for (k, prev, t0, t_end) in &takeovers {
-                let end = t_end.unwrap_or(now_us) + 1_000_000;
-                if distro.iter().any(|(src, t)| *src == prev.0 && *t >= *t0 && *t <= end) {
+                // (up to the end of the previous owner's connection: what its node sends afterwards is the removal, which a
+                // receiver applies only to an instance that still belongs to that client)
+                let end = t_end.unwrap_or(now_us);
+                // (a message of the previous owner's node that mentions the address; the plain client report carries keys, not
+                // addresses in this form, and counts whenever it was sent)
+                let ipx = c_ip(k.1);
+                if distro.iter().any(|(src, t, ips)| *src == prev.0 && *t >= *t0 && *t <= end && ips.contains(&ipx)) {
                     handed_risky.insert(*k);
                     sim::count("probe.takeover_exposed_to_previous_owners_report", 1);
                 } else {
